@@ -22,7 +22,7 @@ fn applicable(f: &Fam, g: &GShape) -> bool {
         return f.body == "c06";
     }
     if g.family == 1 {
-        return (matches!(f.body, "c01" | "c02" | "c03") && !g.rows.is_empty()) || (f.body == "c13" && g.itab.as_ref().map(|t| !t.cases.is_empty()).unwrap_or(false));
+        return (matches!(f.body, "c01" | "c02" | "c03" | "c17") && !g.rows.is_empty()) || (f.body == "c13" && g.itab.as_ref().map(|t| !t.cases.is_empty()).unwrap_or(false));
     }
     match f.body {
         "c01" => !g.rows.is_empty(),
@@ -50,7 +50,7 @@ pub fn emit_wrappers(all: &[GShape], out_dir: &str, tier: &str) {
         Fam { prop: "c07", body: "c07", batch: 4, kind: "V", timeout: 1800, mem: 4, quick_keep: 750 },
         Fam { prop: "c09", body: "c09", batch: 8, kind: "W", timeout: 1500, mem: 4, quick_keep: 1000 },
         Fam { prop: "c17", body: "c17", batch: 8, kind: "W", timeout: 1500, mem: 4, quick_keep: 1000 },
-        Fam { prop: "c13", body: "c13", batch: 6, kind: "W", timeout: 1500, mem: 4, quick_keep: 200 },
+        Fam { prop: "c13", body: "c13", batch: 6, kind: "W", timeout: 1500, mem: 4, quick_keep: 110 },
     ];
     let mut src = String::from("// generated - do not edit\n#![allow(clippy::all)]\nuse super::shapes::*;\n");
     for f in &fams {
@@ -61,7 +61,7 @@ pub fn emit_wrappers(all: &[GShape], out_dir: &str, tier: &str) {
             for (i, g) in all.iter().enumerate() {
                 if applicable(f, g) {
                     let c = seen.entry((g.ctx, g.t.root().to_string())).or_insert(0);
-                    if *c < 5 {
+                    if *c < 4 {
                         strat.insert(i);
                     }
                     *c += 1;
@@ -73,8 +73,8 @@ pub fn emit_wrappers(all: &[GShape], out_dir: &str, tier: &str) {
             tier == "thorough"
                 || f.quick_keep >= 1000
                 || crate::gen::hash_str(&format!("{}{}", g.name, g.ctx), 11) % 1000 < f.quick_keep
-                // the lock-value dimension is the symbolic one for C13: shapes with lock atoms always
-                || (f.body == "c13" && !(g.abs.is_empty() && g.rel.is_empty()))
+                // the lock-value dimension is the symbolic one for C13: half of the shapes with lock atoms
+                || (f.body == "c13" && !(g.abs.is_empty() && g.rel.is_empty()) && crate::gen::hash_str(&format!("{}{}", g.name, g.ctx), 12) % 1000 < 500)
         };
         let idx: Vec<usize> = (0..all.len()).filter(|&i| applicable(f, &all[i]) && (keep(&all[i]) || (f.quick_keep < 1000 && keep_i(i)))).collect();
         for (bi, chunk) in idx.chunks(f.batch).enumerate() {
